@@ -70,6 +70,38 @@ def install(reg):
         return VStr(z3.Const("uuid4_str/r", STR))
 
     E["uuid.uuid4"] = VNative(uuid4, "uuid.uuid4")
+
+    # re: a compiled pattern is its source text; whether it matches a string is an uninterpreted
+    # predicate of (pattern, mode, string) - nothing about the regular language is assumed; match
+    # objects are only tested for truth
+    RE_MATCHES = z3.Function("re.matches", STR, STR, STR, z3.BoolSort())
+
+    class PatternModel:
+        def getattr(self, it, ref, name):
+            if name in ("match", "search", "fullmatch"):
+                def m(it_, a, k):
+                    pat = it_.heap()[a[0].addr].fields["pattern"]
+                    s_ = a[1]
+                    if not isinstance(s_, VStr):
+                        raise Unsupported("re match on a non-string")
+                    from ..values import VOpt, VOpaque, usort
+                    hit = RE_MATCHES(pat.t, z3.StringVal(name), s_.t)
+                    return VOpt(z3.Not(hit), VOpaque(it_.path.const("re.Match", usort("Match")), "Match"))
+                from ..callables import VBound
+                return VBound(ref, VNative(m, "Pattern." + name))
+            raise Unsupported(f"re.Pattern.{name}")
+
+        def isinstance(self, it, ref, cls):
+            return False
+
+    PATTERN = PatternModel()
+
+    def re_compile(it, a, k):
+        if len(a) != 1 or k or not isinstance(a[0], VStr):
+            raise Unsupported("re.compile with flags / non-string pattern")
+        return VRef(it.path.alloc(Cell(cls="re.Pattern", fields={"pattern": a[0]}, native=PATTERN)), "re.Pattern")
+
+    E["re.compile"] = VNative(re_compile, "re.compile")
     def timedelta(it, a, k):
         days = a[0] if a else k.get("days", VInt(0))
         return VInt(days.t * 86400)
